@@ -58,7 +58,7 @@ def writers():
     }
 
 
-GEN_FORMATS = ["config", "header", "cmake", "json", "savedefconfig", "json_menus"]
+GEN_FORMATS = ["config", "header", "cmake", "json", "savedefconfig", "json_menus", "docs", "report"]
 
 
 _GEN = {}
@@ -84,6 +84,7 @@ def run_gen(run, cfg, fmt, dest):
     import kconfgen.core as kg
 
     g = gen_inputs(run)
+    os.environ.setdefault("IDF_TARGET", "esp32")  # the docs format insists on a target
     kg.main.callback(
         sdkconfig_file=g[cfg],
         defaults=(),
@@ -244,7 +245,7 @@ def expected_texts(run, fn):
             fn(c, p)
             with open(p, newline="") as f:
                 out[c] = f.read()
-        except Exception as e:
+        except (Exception, SystemExit) as e:
             return None, "%s: %r" % (c, e)
         os.unlink(p)
         if os.path.exists(p + ".old"):
